@@ -41,6 +41,8 @@ pub struct Gen {
     pub max_hint: i64,
     /// C18: never emit capacity-dependent composite operations (the scenario must mean the same under both group widths)
     pub no_fill: bool,
+    /// percentage of operations that get a random callback panic attached (C03: exits under unwinding)
+    pub fault_pct: u64,
     /// C13 churn mode: (bound on live size, removal order 0 random / 1 FIFO / 2 LIFO / 3 middle)
     pub churn: Option<(usize, u8)>,
     /// insertion order of live ids per slot (churn mode)
@@ -197,9 +199,35 @@ impl Gen {
         for _ in 0..rng.range(1, 3) {
             let k = self.universe + self.fresh_counter;
             self.fresh_counter += 1;
+            let val = rng.below(1 << 20) as i64;
+            // the insertion that must rehash in place goes through every insertion path, not only insert()
+            let has = |kd: Kd| self.weights.iter().any(|w| w.0 == kd);
             let ins = match self.family {
-                Family::Table => Op::new(Kd::TInsertUnique).s(s).a(k as i64).b(rng.below(1 << 20) as i64),
-                _ => Op::new(Kd::Insert).s(s).a(k as i64).b(rng.below(1 << 20) as i64),
+                Family::Table => match rng.below(3) {
+                    0 if has(Kd::TEntry) => Op::new(Kd::TEntry).s(s).a(k as i64).b(val).c(*rng.pick(&[0i64, 1, 2, 3, 5])),
+                    _ => Op::new(Kd::TInsertUnique).s(s).a(k as i64).b(val),
+                },
+                Family::Set => match rng.below(5) {
+                    0 if has(Kd::Replace) => Op::new(Kd::Replace).s(s).a(k as i64),
+                    1 if has(Kd::GetOrInsert) => Op::new(Kd::GetOrInsert).s(s).a(k as i64),
+                    2 if has(Kd::GetOrInsertWith) => Op::new(Kd::GetOrInsertWith).s(s).a(k as i64),
+                    3 if has(Kd::Entry) => Op::new(Kd::Entry).s(s).a(k as i64).c(*rng.pick(&[0i64, 1, 3])),
+                    _ => Op::new(Kd::Insert).s(s).a(k as i64).b(val),
+                },
+                Family::Map => match rng.below(4) {
+                    0 if has(Kd::TryInsert) => Op::new(Kd::TryInsert).s(s).a(k as i64).b(val),
+                    1 | 2 if has(Kd::Entry) => {
+                        let api = rng.below(self.entry_apis.min(6).max(1) as u64) as i64;
+                        let chain: Vec<i64> = match rng.below(4) {
+                            0 => vec![api, 1],
+                            1 => vec![api, 2],
+                            2 => vec![api, 9, 22],
+                            _ => vec![api, 3],
+                        };
+                        Op::new(Kd::Entry).s(s).a(k as i64).b(val).v(chain)
+                    }
+                    _ => Op::new(Kd::Insert).s(s).a(k as i64).b(val),
+                },
             };
             self.pending.push_back(ins);
         }
@@ -263,6 +291,15 @@ impl Gen {
     }
 
     pub fn next(&mut self, rng: &mut Rng, view: &WorldView) -> Op {
+        let mut op = self.next_inner(rng, view);
+        if self.fault_pct > 0 && rng.below(100) < self.fault_pct {
+            use crate::state::Class;
+            op.f = Some(crate::scenario::Fault { c: *rng.pick(&[Class::Pred, Class::Pred, Class::Clone, Class::Hash, Class::Eq, Class::Iter]), k: rng.range(1, 4) as u32 });
+        }
+        op
+    }
+
+    fn next_inner(&mut self, rng: &mut Rng, view: &WorldView) -> Op {
         if let Some(op) = self.pending.pop_front() {
             return op;
         }
@@ -317,7 +354,7 @@ impl Gen {
                 op
             }
             Kd::Extend | Kd::ExtendRef | Kd::FromIter => {
-                let n = *rng.pick(&[0u64, 1, 2, 3, 5, 8, 13, 30]);
+                let n = if self.universe >= 200 { *rng.pick(&[3u64, 8, 30, 80, 200]) } else { *rng.pick(&[0u64, 1, 2, 3, 5, 8, 13, 30]) };
                 let mut v = Vec::new();
                 for _ in 0..n {
                     v.push(self.key(rng, sv, 30) as i64);
@@ -376,8 +413,11 @@ impl Gen {
                 Op::new(kind).s(s).a(self.key(rng, sv, 25) as i64).b(val)
             }
             Kd::TRemoveReinsert => Op::new(kind).s(s).a(self.key(rng, sv, 80) as i64).b(val).c(rng.below(3) as i64),
-            Kd::Par => Op::new(kind).s(s).t((s + 1) % self.n_slots).a(rng.below(24) as i64).b(rng.below(sv.len as u64 + 2) as i64).c(rng.below(3) as i64).v((0..48).map(|_| rng.below(1 << 16) as i64).collect()),
-            Kd::SerdeRoundTrip => Op::new(kind).s(s).a(rng.below(4) as i64),
+            Kd::Par => {
+                let nd = *rng.pick(&[4usize, 12, 40, 120]);
+                Op::new(kind).s(s).t((s + 1) % self.n_slots).a(rng.below(48) as i64).b(rng.below(sv.len as u64 + 2) as i64).c(rng.below(1024) as i64).v((0..nd).map(|_| rng.below(1 << 16) as i64).collect())
+            }
+            Kd::SerdeRoundTrip => Op::new(kind).s(s).a(rng.below(4) as i64).b(rng.below(400) as i64).c(rng.below(7) as i64),
             Kd::SerdeStream => {
                 let n = rng.below(12);
                 let mut v = Vec::new();
@@ -385,7 +425,7 @@ impl Gen {
                     v.push(self.key(rng, sv, 40) as i64);
                     v.push(rng.below(1 << 20) as i64);
                 }
-                let hint = *rng.pick(&[-1i64, -1, 0, 3, 4096, 4097, 1 << 20, 1 << 40, i64::MAX, -2]);
+                let hint = *rng.pick(&[-1i64, -2, -2, 0, 3, 4096, 4097, 1 << 20, 1 << 40, i64::MAX, -3]);
                 let err_at = if rng.below(3) == 0 { rng.below(n + 1) as i64 } else { -1 };
                 Op::new(kind).s(s).a(hint).b(err_at).c(rng.below(4) as i64).v(v)
             }
